@@ -215,13 +215,19 @@ def orphans(path: Path, clean: bool, size: bool, show_all: bool, ignore_old: boo
 
     for p in paths:
         if p.is_dir():
-            for relpath, path in getjobs(p):
-                xpjobs.add(relpath)
+            for relpath, jobpath in getjobs(p):
+                # The entry might lead to the job folder through a link (e.g.
+                # left by `deprecated list --fix`)
+                xpjobs.add(jobpath.resolve())
 
     # Now, look at stored jobs
     found = 0
     for key, jobpath in getjobs(jobspath):
-        if key not in xpjobs:
+        if jobpath.is_symlink():
+            # Not a job folder but an alias of one (which is listed too)
+            continue
+
+        if jobpath.resolve() not in xpjobs:
             show(key)
             if clean:
                 logging.info("Removing data in %s", jobpath)
